@@ -12,7 +12,7 @@ EXPLANATION = (
     "(refuse directed) and weakly_/strongly_connected_components (refuse undirected), every block that can produce a non-error "
     "return value is reachable from the entry only through the continue edge of a guard -- a test of specs.directed, or the "
     "Ok/Continue outcome of a call (on the same graph) to a crate function that itself refuses; decided by deleting the edge and "
-    "testing CFG reachability, recursively through callees.  R-C10-8: the position-keyed adjacency sets a search may expand through get the same updates as the name-keyed ones.  R-C10-9: a visited structure assigned as a whole inside a loop derives from its own previous value.  R-C10-12: bfs_equal_size_partitions allocates its list of parts with num_partitions entries, never changes that list's own length and answers entry for entry (the "k parts" clause).  NOT decided: that the returned sets are the equivalence classes of "
+    "testing CFG reachability, recursively through callees.  R-C10-8: the position-keyed adjacency sets a search may expand through get the same updates as the name-keyed ones.  R-C10-9: a visited structure assigned as a whole inside a loop derives from its own previous value.  R-C10-12: bfs_equal_size_partitions allocates its list of parts with num_partitions entries, never changes that list's own length and answers entry for entry (the 'k parts' clause).  NOT decided: that the returned sets are the equivalence classes of "
     "the reachability relation, BFS order/completeness, partition sizes (run-time graph properties)."
 )
 TRUSTED = ["rustc MIR construction", "CFG paths over-approximate executions"]
